@@ -153,6 +153,7 @@ class SimChunkerNative:
 
 
 _SRC_PREFIX = None
+_EXTRA_FILES = set()      # library files whose functions are explicitly listed as pre-emption points
 
 
 def _collect_codes(fn_or_code, out):
@@ -163,7 +164,7 @@ def _collect_codes(fn_or_code, out):
         _SRC_PREFIX = str(repo_src().resolve() / 'replicat') + '/'
     if not isinstance(c, types.CodeType) or c in out:
         return
-    if not str(c.co_filename).startswith(_SRC_PREFIX):
+    if not str(c.co_filename).startswith(_SRC_PREFIX) and c.co_filename not in _EXTRA_FILES:
         return      # e.g. Enum.__new__ reached through a class defined in replicat: library code is never pre-empted
     out.append(c)
     for k in c.co_consts:
@@ -305,6 +306,14 @@ def install_once():
                  'delete', '_destination_temp', 'clean'):
         f = getattr(L.Local, name)
         targets.append(getattr(f, '__wrapped__', f))
+    # the connection-slot queue is an asyncio.PriorityQueue shared between the loop and worker threads:
+    # its (non thread-safe) methods are pre-emption points too
+    import asyncio.queues as _aq
+    _EXTRA_FILES.add(_aq.Queue.get_nowait.__code__.co_filename)
+    for name in ('get_nowait', 'put_nowait', 'get', 'put', 'empty', 'full', 'qsize', '_wakeup_next'):
+        targets.append(getattr(_aq.Queue, name))
+    for name in ('_get', '_put'):
+        targets.append(getattr(_aq.PriorityQueue, name))
     for fn in targets:
         _collect_codes(fn, codes)
     # ... and every other function / method defined in those modules (a change may add a race anywhere)
